@@ -442,7 +442,7 @@ pub static C06: PropSpec = PropSpec {
     id: "C06",
     simulator: "R-sim",
     level: "fault_enumeration",
-    runs: |t| if t == Tier::Thorough { 12_000 } else { 500 },
+    runs: |t| if t == Tier::Thorough { 300_000 } else { 500 },
     enumerated: |_| 3 * c06_enum_per_kind() as u64,
     run: run_c06,
     rule: "enumerated per transport (TLS, local CLI, SSH): a two-reply stream with every single cut from 8 bytes before to 8 bytes after each delimiter (hello, reply 1, reply 2), every pair of cuts inside one delimiter, all groupings of 2 and 3 replies into units, one-byte chunks, single-unit replies of 41 sizes around the receive buffer's capacity boundaries; seeded: 1-5 replies of 110..9000 bytes, 0-5 cuts (half of them within 8 bytes of a delimiter), message boundaries cut or merged, hello cut as well. One chunk = one TLS record / one SSH CHANNEL_DATA / one pipe write, delivered in lock-step under the paused clock; after each completed reply the peer stays silent for 400 virtual ms. Oracle: every request resolves to its own reply, within 100 virtual ms of the delivery of the last byte of its delimiter. Distinct = distinct event-log hash; every run is non-trivial",
